@@ -21,7 +21,7 @@ func init() {
 			if small {
 				sc[i].SetUint64(uint64(i%500 + 1))
 			} else {
-				sc[i].SetUint64(uint64(i + 7)).Exp(sc[i], big.NewInt(int64(i+3)))
+				sc[i].SetUint64(uint64(i+7)).Exp(sc[i], big.NewInt(int64(i+3)))
 			}
 		}
 		return p1, p2, sc
